@@ -52,7 +52,7 @@ LEVEL_TEXT = ("The real USBResetSequencer netlist (real 60 MHz constants, events
               "flag toggles and inserted glitches; thorough adds k=2 over a reduced menu); every output change is checked by a run-length "
               "monitor written from the statement.")
 LEVEL_NOTE = ("Bounded by the scripts and the deviation count, not a closure over all histories; amaranth.sim conformance replay covers only "
-              "the first 30 000 (quick) / 300 000 (thorough) cycles of the sampled paths, counterexamples are replayed in full by --replay.")
+              "the first 30 000 (quick) / 200 000 (thorough) cycles of the sampled paths, counterexamples are replayed in full by --replay.")
 
 # UTMI constants (UTMI+ spec: XcvrSelect 00 HS / 01 FS / 10 LS; OpMode 00 normal / 01 non-driving / 10 no bit-stuff+NRZI)
 SPEED_HIGH, SPEED_FULL, SPEED_LOW = 0, 1, 2
@@ -67,7 +67,7 @@ MENU = [1, 2, 3, 10] + [t + d for t in (T2P5US, T5US, T200US, T2MS, T2P5MS, T3MS
 MENU += [t - 75 for t in (T200US, T2MS, T2P5MS, T3MS)]    # a long timer expiring half-way through a 2.5 us measurement
 MENU.sort()
 SHORT = [d for d in MENU if d <= T5US + 3]
-MENU2 = [1, 10, 149, 151, 152, 299, 301, 302, 12_002, 120_002, 150_002, 180_002]   # reduced (k = 2)
+MENU2 = [1, 10, 149, 151, 152, 301, 302, 12_002, 150_002, 180_002]   # reduced menu (k = 2): SE0/J/K only, no flag pulses
 SHORT2 = [1, 10, 151, 301]
 FLAGS = ("vbus_connected", "disconnect", "full_speed_only", "low_speed_only", "bus_busy")
 
@@ -200,13 +200,14 @@ class ResetSpec(Spec):
         full = cfg["menu"] == "full"
         self.menu = MENU if full else MENU2
         self.short = SHORT if full else SHORT2
-        self.pulse = (1, 3, 151) if full else (1, 151)
+        self.pulse = (1, 3, 151) if full else ()
+        self.lines = (SE0, J, K, SE1) if full else (SE0, J, K)
         if tier == "quick":
             self.time_budget = 1500         # wall-clock guard only: the exploration is finite by construction (3-10 s CPU)
             self.n_validate, self.validate_max_cycles = 2, 30_000
         else:
             self.time_budget = 780
-            self.n_validate, self.validate_max_cycles = 3, 300_000
+            self.n_validate, self.validate_max_cycles = 2, 200_000
         self.max_states = 3_000_000
 
     def build(self):
@@ -253,6 +254,14 @@ class ResetSpec(Spec):
         except Violation as v:
             self._prefix_violation = (v.rule, dict(v.detail or {}, in_nominal_prefix=[self.label(("nominal", 0, i, d, 0)) for i, d in self.prefix]))
             return (-1, 0, 0, Mon.INIT)
+        # vacuity guard independent of exploration caps: run the nominal body once on a fork so that the cover goals
+        # say whether the *script* reaches the situations it is about (the BFS reaches its end only at full depth)
+        try:
+            f, e = cur.fork(), env
+            for inp, dur in self.script:
+                e = self.apply(f, e, ("nominal", 1, inp, dur, 0))
+        except Violation:
+            pass                      # found again, with its path, by the exploration
         return env
 
     @staticmethod
@@ -271,7 +280,7 @@ class ResetSpec(Spec):
         inp = self._mask(inp, mask)
         acts = [("nominal", 1, inp, dur, mask)]
         if left <= 0: return acts
-        for line in (SE0, J, K, SE1):
+        for line in self.lines:
             for d in self.menu:
                 if line == inp[0] and d == dur: continue
                 acts.append(("replace", 1, (line,) + inp[1:], d, mask))
@@ -279,7 +288,7 @@ class ResetSpec(Spec):
             t = list(inp); t[1 + b] ^= 1; t = tuple(t)
             acts.append(("toggle", 1, t, dur, mask))
             acts.append(("toggle-on", 1, t, dur, mask ^ (1 << b)))
-        for line in (SE0, J, K, SE1):
+        for line in self.lines:
             for d in self.short:
                 acts.append(("insert", 0, (line,) + inp[1:], d, mask))
         for b in range(5):
